@@ -352,6 +352,11 @@ T == octet.
 *******************************************************************************
 */
 
+#if defined(BEE2_VERIF) && defined(BEE2_VERIF_W32)
+	/* verification hook: select the 32-bit word configuration on a 64-bit host */
+	#undef U128_SUPPORT
+#endif
+
 #if defined(U128_SUPPORT)
 	#define B_PER_W 64
 	typedef u64 word;
